@@ -638,7 +638,7 @@ Definition written_names (n : bnv) : list str :=
     filter (fun nm => negb (lib_eqb (m_lib (get_model nm ms)) LPrim)) (reach (S (length ms + total_insts ms)) ms [tr] [])
   end.
 
-Definition roundtrippable (n : bnv) : bool :=
+Definition roundtrippable0 (n : bnv) : bool :=
   match b_top n with
   | None => true
   | Some (_, tr) =>
@@ -652,6 +652,10 @@ Definition roundtrippable (n : bnv) : bool :=
                names_some m && rows_ok m && forallb (data_ok ms m) (written_insts m))
             (written_names n)
   end.
+
+(* ... and the written file is a document of the tokenizer: no name that is written as a word starts with
+   "#" (since the repair of generate_tokens such a word would begin a comment on re-reading) *)
+Definition roundtrippable (n : bnv) : bool := roundtrippable0 n && tokenized (emit n).
 
 (* the round trip on the fragment: NOT proved in general (checked case by case by [rt_check],
    whose verdict is proved sound, on every document the correspondence run generates) *)
